@@ -1182,6 +1182,12 @@ func main() {
 	}
 	if cfg.Replay != "" {
 		for _, l := range hlib.ReplayLines(cfg.Replay) {
+			if strings.HasPrefix(strings.TrimPrefix(l, "PROPFAIL "), "lv ") {
+				if mode == "all" || mode == "syn" {
+					replayLarge(o, strings.TrimPrefix(l, "PROPFAIL "))
+				}
+				continue
+			}
 			src, path, ops, ok := parseOpLine(l)
 			if !ok {
 				continue
